@@ -1,5 +1,9 @@
 import Enc.Model.Json.DynNumber
 import Enc.Spec.Json.DynNumber
+import Enc.Lemmas.JsonRTString
+import Enc.Lemmas.JsonRTValue
+import Enc.Lemmas.JsonRTInt
+import Enc.Lemmas.JsonRTMap
 /-!
 # C14 — json flags change representation or copying, never meaning
 Property theorems only. The number-kind selection (UseNumber / UseBigInt / UseInt64 / UseUint64) is decision logic and is
@@ -50,5 +54,237 @@ theorem dynChoice_value (fl : DynFlags) (kind : Kind) (u : Option Nat) (i : Opti
 theorem no_conditional_flags (useNumber : Bool) (b : Bytes) (k : Kind) (r : Bytes) (h : parseNumber b = .ok k r) :
     decodeDynamicNumber ⟨useNumber, false, false, false⟩ b = if useNumber then .num (litOf b r) else .f64 := by
   cases useNumber <;> simp [decodeDynamicNumber, h, dynChoice]
+
+
+/-! ## Cross-model theorems: what the ENCODER models write, the DECODER / VALIDATOR / TOKENIZER models read back
+
+The encoder side (`encodeString`, proved equal to encoding/json's `appendString` in C01) and the decoder side
+(`parseStringUnquote` / `unmarshalString`, proved equal to encoding/json's `unquote` in C02; `valid` = RFC 8259 in C05;
+`tokens` = the token specification in C17) are connected here. Proofs: Enc/Lemmas/JsonRT*.lean.
+`Spec.Json.coerceUTF8 s` is Go's `string([]rune(s))`: every byte that is not part of a well-formed UTF-8 sequence
+becomes U+FFFD — the only change a JSON round trip may make to a Go string. -/
+
+/-- **String round trip (A), decoder entry point, any continuation.** For EVERY byte string `s` (valid UTF-8 or not),
+both EscapeHTML settings, whatever bytes follow the literal, and any parse flags that are sound for the input (the flags
+`Parse` computes always are: `Lemmas.JsonValid.internalParseFlags_qsound`): the string decoder applied to the string
+encoder's output returns `s` with invalid UTF-8 replaced by U+FFFD and hands back exactly the bytes that followed. -/
+theorem string_round_trip (fl : PFlags) (s : Bytes) (html : Bool) (rest : Bytes)
+    (hq : Lemmas.JsonString.QSound fl (encodeString s html ++ rest)) :
+    parseStringUnquote fl (encodeString s html ++ rest) = some (Spec.Json.coerceUTF8 s, rest) :=
+  Lemmas.JsonRTString.parseStringUnquote_encodeString fl s html rest hq
+
+/-- **String round trip (A), whole document**: `Unmarshal(Append(nil, s, flags), &str)` — no hypothesis. -/
+theorem string_round_trip_unmarshal (s : Bytes) (html : Bool) :
+    unmarshalString (encodeString s html) = some (Spec.Json.coerceUTF8 s) :=
+  Lemmas.JsonRTString.roundtrip_model s html
+
+/-- … the same statement about the standard library alone (its encoder transcription read by its decoder
+transcription), which the two model = stdlib theorems (C01 `encodeString_eq`, C02 `unmarshalString_eq`) transport -/
+theorem string_round_trip_std (s : Bytes) (html : Bool) :
+    Spec.Json.unmarshalString (Spec.Json.appendString s html) = some (Spec.Json.coerceUTF8 s) :=
+  Lemmas.JsonRTString.roundtrip_std s html
+
+/-- EscapeHTML changes the representation only: both settings decode to the same string -/
+theorem escapeHTML_changes_representation_only (s : Bytes) :
+    unmarshalString (encodeString s true) = unmarshalString (encodeString s false) :=
+  Lemmas.JsonRTString.escapeHTML_changes_representation_only s
+
+/-- valid UTF-8 comes back unchanged -/
+theorem string_round_trip_valid_utf8 (s : Bytes) (html : Bool) (h : Spec.Json.ValidUTF8 s) :
+    unmarshalString (encodeString s html) = some s :=
+  Lemmas.JsonRTString.roundtrip_valid_utf8 s html h
+
+/-- the model's chunk-wise `appendCoerceInvalidUTF8` over a whole string is the specification's coercion -/
+theorem coerce_model_eq_spec (b : Bytes) (f : Nat) (hf : b.length ≤ f) : coerceUTF8 f b = Spec.Json.coerceUTF8 b :=
+  Lemmas.JsonRTUtf8.model_coerce_eq b f hf
+
+/-- the encoder's output is valid JSON for the validator model … -/
+theorem encodeString_valid (s : Bytes) (html : Bool) : valid (encodeString s html) = true :=
+  Lemmas.JsonRTString.valid_encodeString s html
+
+/-- … is accepted by the RFC 8259 `string` production with nothing consumed beyond it … -/
+theorem encodeString_is_one_string (s : Bytes) (html : Bool) (rest : Bytes) :
+    Spec.Json.string (encodeString s html ++ rest) = some rest := by
+  rw [Lemmas.JsonEncString.encodeString_eq]; exact Lemmas.JsonRTString.string_accepts s html rest
+
+/-- … and is ONE token for the tokenizer model (no error, text = the whole output, depth 0, index 0, not a key) -/
+theorem encodeString_single_token (s : Bytes) (html : Bool) :
+    (Token.tokens (encodeString s html)).2 = false ∧
+    (Token.tokens (encodeString s html)).1.map (fun t => (t.delim, t.value, t.depth, t.index, t.isKey)) =
+      [(0, encodeString s html, 0, 0, false)] :=
+  Lemmas.JsonRTString.tokens_encodeString s html
+
+/-- the output contains no raw control byte and, with EscapeHTML, no raw `<` `>` `&` -/
+theorem encodeString_no_control_bytes (s : Bytes) (html : Bool) :
+    ∀ b ∈ encodeString s html, 0x20 ≤ b ∧ (html = true → b ≠ 0x3c ∧ b ≠ 0x3e ∧ b ≠ 0x26) := by
+  intro b hb
+  have h := Lemmas.JsonRTString.encodeString_bytes s html b hb
+  simp only [Lemmas.JsonRTString.okByte, Bool.and_eq_true, decide_eq_true_eq, Bool.not_eq_true', Bool.and_eq_false_iff,
+    Bool.or_eq_false_iff, beq_eq_false_iff_ne, ne_eq] at h
+  refine ⟨h.1, fun hh => ?_⟩
+  rcases h.2 with h2 | h2
+  · rw [hh] at h2; cases h2
+  · exact ⟨h2.1.1, h2.1.2, h2.2⟩
+
+/-- hence the decoder's input-wide fast-path flags ("no backslash", "printable ASCII") cannot change its meaning -/
+theorem string_decode_flags_irrelevant (fl : PFlags) (s : Bytes) (html : Bool) (rest : Bytes)
+    (hq : Lemmas.JsonString.QSound fl (encodeString s html ++ rest)) :
+    parseStringUnquote fl (encodeString s html ++ rest) = parseStringUnquote {} (encodeString s html ++ rest) :=
+  Lemmas.JsonRTString.decode_flags_irrelevant fl s html rest hq
+
+
+
+/-! ## integers: what `formatInteger` / `appendInt` writes, `parseInt` / `parseUint` read back (B)
+
+`NumEnd rest`: `rest` cannot continue a number (it is empty or starts with none of a digit, `.`, `e`, `E`) — what follows
+a number in any rendering. Machine integers are `BitVec 64` as in the decoder model. -/
+
+/-- **B (signed).** For every int64 `i`: `parseInt` applied to the encoder's text returns exactly `i` and the rest -/
+theorem int_round_trip (i : Int) (h : -2 ^ 63 ≤ i ∧ i < 2 ^ 63) (rest : Bytes) (hr : Lemmas.JsonRTValue.NumEnd rest) :
+    parseInt (appendInt i ++ rest) = .ok (BitVec.ofInt 64 i) rest :=
+  Lemmas.JsonRTInt.parseInt_appendInt i h rest hr
+
+/-- **B (unsigned).** For every uint64 `n`: `parseUint` applied to `formatInteger n` returns exactly `n` and the rest -/
+theorem uint_round_trip (n : Nat) (h : n < 2 ^ 64) (rest : Bytes) (hr : Lemmas.JsonRTValue.NumEnd rest) :
+    parseUint (formatInteger n false ++ rest) = .ok (BitVec.ofNat 64 n) rest :=
+  Lemmas.JsonRTInt.parseUint_formatInteger n h rest hr
+
+/-- out of range ⇒ error: a uint64 above MaxInt64 is refused by `parseInt`, a negative number by `parseUint` -/
+theorem int_round_trip_overflow (i : Int) (h : 2 ^ 63 ≤ i ∧ i < 2 ^ 64) (rest : Bytes)
+    (hr : Lemmas.JsonRTValue.NumEnd rest) : parseInt (appendInt i ++ rest) = .err :=
+  Lemmas.JsonRTInt.parseInt_appendInt_overflow i h rest hr
+theorem uint_round_trip_negative (i : Int) (h : -2 ^ 63 ≤ i ∧ i < 0) (rest : Bytes) :
+    parseUint (appendInt i ++ rest) = .err :=
+  Lemmas.JsonRTInt.parseUint_appendInt_neg i h rest
+
+/-- **B (all ten widths).** For every integer the encoder can be given (int64 or uint64 range) and every integer
+target type: `Unmarshal(Append(nil, i), &x)` stores `i` when it fits the type of `x` and returns an error otherwise -/
+theorem int_round_trip_all_widths (t : ITy) (i : Int) (h : -2 ^ 63 ≤ i ∧ i < 2 ^ 64) :
+    unmarshalInt t (appendInt i) =
+      if Lemmas.JsonDecInt.lo t ≤ i ∧ i ≤ Lemmas.JsonDecInt.hi t then some i else none :=
+  Lemmas.JsonRTInt.unmarshalInt_appendInt t i h
+
+/-- … the same about the standard library alone (strconv's decimal text read by literalStore) -/
+theorem int_round_trip_all_widths_std (t : ITy) (i : Int) (h : -2 ^ 63 ≤ i ∧ i < 2 ^ 64) :
+    Spec.Json.unmarshalInt t.signed (Lemmas.JsonDecInt.lo t) (Lemmas.JsonDecInt.hi t) (Spec.Json.intString i) =
+      if Lemmas.JsonDecInt.lo t ≤ i ∧ i ≤ Lemmas.JsonDecInt.hi t then some i else none := by
+  rw [← Lemmas.JsonDecInt.unmarshalInt_eq, ← Lemmas.JsonEncInt.appendInt_eq i h]
+  exact Lemmas.JsonRTInt.unmarshalInt_appendInt t i h
+
+/-- the encoder's integer text is one valid JSON number for the validator model -/
+theorem appendInt_valid (i : Int) (h : -2 ^ 63 ≤ i ∧ i < 2 ^ 64) : valid (appendInt i) = true :=
+  Lemmas.JsonRTInt.valid_appendInt i h
+
+/-- non-vacuity: MinInt64 round-trips through int64 and is refused by int32; MaxUint64 fits uint64 only -/
+example : parseInt (appendInt (-9223372036854775808)) = .ok (BitVec.ofInt 64 (-9223372036854775808)) [] := by
+  decide +kernel
+example : unmarshalInt .i32 (appendInt (-9223372036854775808)) = none := by decide +kernel
+example : unmarshalInt .u64 (appendInt 18446744073709551615) = some 18446744073709551615 := by decide +kernel
+example : unmarshalInt .i64 (appendInt 18446744073709551615) = none := by decide +kernel
+
+/-! ## whole values: "otherwise valid JSON" (C14) / "output is accepted by Valid" (C05) / tokens (C17)
+
+`Spec.Json.render` is the buffer-free rendering that `Append` was proved to produce (C15 `append_eq_render`) over the value
+universe `JV` (null, bool, integers, strings, []byte as base64, arrays, structs with omitempty / `,string` / skipped
+fields, failing encoders). `JV` has no raw messages, so the TrustRawMessage hypothesis of the property is not needed.
+The only hypothesis is the nesting depth: like encoding/json's, the validator refuses more than 10000 levels
+(`Props.C05.deep_rejected`), while the encoder has no limit — so a value nested deeper renders to a text that `Valid`
+rejects, for both libraries alike; `render_is_grammatical` states the unbounded fact for the RFC 8259 grammar itself. -/
+
+open Enc.Model.Json.Buf in
+/-- **C.** Every successful rendering of a value nested at most 10000 deep is valid JSON for the validator model -/
+theorem render_valid (html : Bool) (v : JV) (x : Bytes) (h : Spec.Json.render html v = some x) (hd : v.depth ≤ 10000) :
+    valid x = true :=
+  Lemmas.JsonRTValue.valid_render html v x h hd
+
+open Enc.Model.Json.Buf in
+/-- the same for the model of `Append(nil, v, flags)` itself: no error ⇒ valid JSON -/
+theorem append_output_valid (grow : Nat → Nat → Nat) (html : Bool) (v : JV) (hv : v.Ranged) (hd : v.depth ≤ 10000)
+    (he : (append grow html Slice.empty v).2 = false) : valid (append grow html Slice.empty v).1 = true :=
+  Lemmas.JsonRTValue.append_valid grow html v hv hd he
+
+open Enc.Model.Json.Buf in
+/-- the RFC 8259 grammar with any nesting budget `d ≥ depth v` and fuel ≥ the length reads the rendering as exactly one
+value, whatever follows it among `,` `]` `}` or the end of input — no bound on the depth -/
+theorem render_is_grammatical (html : Bool) (v : JV) (x : Bytes) (h : Spec.Json.render html v = some x) (f d : Nat)
+    (rest : Bytes) (hf : x.length ≤ f) (hd : v.depth ≤ d) (hr : Lemmas.JsonRTValue.Term rest) :
+    Spec.Json.value f d (x ++ rest) = some rest :=
+  Lemmas.JsonRTValue.value_render html v x h f d rest hf hd hr
+
+open Enc.Model.Json.Buf in
+/-- **C (tokenizer).** The tokenizer model runs over a rendering without error and the token Values, concatenated, are
+the rendering itself (it is already compact: `Lemmas.JsonRTValue.compact_render`) — no depth hypothesis, the tokenizer has
+no nesting limit -/
+theorem render_tokens_concat (html : Bool) (v : JV) (x : Bytes) (h : Spec.Json.render html v = some x) :
+    (Token.tokens x).2 = false ∧ ((Token.tokens x).1.map (·.value)).flatten = x :=
+  Lemmas.JsonRTValue.tokens_render html v x h
+
+open Enc.Model.Json.Buf in
+/-- … and the rendering is a valid document for the token specification of C17 -/
+theorem render_has_tokens (html : Bool) (v : JV) (x : Bytes) (h : Spec.Json.render html v = some x) :
+    ∃ ts, Spec.Json.tokensOf x = some ts ∧ (ts.map (·.value)).flatten = x :=
+  Lemmas.JsonRTValue.tokensOf_render html v x h
+
+open Enc.Model.Json.Buf in
+/-- non-vacuity: `[{"a":"<","n":"-5"},-5,"AQI=",[]]` with a skipped field and a `,string` field -/
+example : Spec.Json.render false
+    (.arr (.cons (.obj (.cons [0x61] false false false (.str [0x3c]) (.cons [0x7a] true false false (.int 0)
+      (.cons [0x6e] false true false (.int (-5)) .nil))))
+      (.cons (.int (-5)) (.cons (.bytes (some [1, 2])) (.cons (.arr .nil) .nil))))) =
+    some [0x5b, 0x7b, 0x22, 0x61, 0x22, 0x3a, 0x22, 0x3c, 0x22, 0x2c, 0x22, 0x6e, 0x22, 0x3a, 0x22, 0x2d, 0x35, 0x22, 0x7d, 0x2c,
+      0x2d, 0x35, 0x2c, 0x22, 0x41, 0x51, 0x49, 0x3d, 0x22, 0x2c, 0x5b, 0x5d, 0x5d] := by decide +kernel
+
+/-! ## SortMapKeys (D): object members are only permuted
+
+Model: Model/Json/MapOrder.lean (`encodeMapStringString`: the entries in the runtime's iteration order — a parameter —
+written as they come, or sorted by key with `sort.Sort` first). -/
+
+open Enc.Model.Json.MapOrder in
+/-- the member list written without SortMapKeys is a permutation of the member list written with it, for every
+iteration order the runtime may produce -/
+theorem sortMapKeys_members_perm (html : Bool) (es : Entries) :
+    (Lemmas.JsonRTMap.memberTexts html es).Perm (Lemmas.JsonRTMap.memberTexts html (sortEntries es)) :=
+  Lemmas.JsonRTMap.members_perm html es
+
+open Enc.Model.Json.MapOrder in
+/-- … where both outputs are `{` + those members joined by `,` + `}` -/
+theorem sortMapKeys_output_shape (html sortKeys : Bool) (es : Entries) :
+    encodeMapStringString html sortKeys (some es) =
+      [0x7b] ++ Spec.Json.joinWith 0x2c (Lemmas.JsonRTMap.memberTexts html (if sortKeys then sortEntries es else es)) ++ [0x7d] :=
+  Lemmas.JsonRTMap.encodeMap_members html sortKeys es
+
+open Enc.Model.Json.MapOrder in
+/-- same set of (key, value) entries, and with the flag the keys ascend in byte-wise order -/
+theorem sortMapKeys_same_entries (es : Entries) (p : Bytes × Bytes) : p ∈ sortEntries es ↔ p ∈ es :=
+  Lemmas.JsonRTMap.sortEntries_mem es p
+open Enc.Model.Json.MapOrder in
+theorem sortMapKeys_sorted (es : Entries) : List.Pairwise (fun p q => strLE p.1 q.1 = true) (sortEntries es) :=
+  Lemmas.JsonRTMap.sortEntries_sorted es
+
+open Enc.Model.Json.MapOrder in
+/-- both outputs are valid JSON, whatever the iteration order (nil map: `null`) -/
+theorem sortMapKeys_both_valid (html sortKeys : Bool) (m : Option Entries) :
+    valid (encodeMapStringString html sortKeys m) = true :=
+  Lemmas.JsonRTMap.encodeMap_valid html sortKeys m
+
+open Enc.Model.Json.MapOrder in
+/-- non-vacuity: {"b":"1","a":"<"} in iteration order b, a -/
+example : encodeMapStringString true false (some [([0x62], [0x31]), ([0x61], [0x3c])]) =
+      [0x7b, 0x22, 0x62, 0x22, 0x3a, 0x22, 0x31, 0x22, 0x2c, 0x22, 0x61, 0x22, 0x3a, 0x22, 0x5c, 0x75, 0x30, 0x30, 0x33, 0x63, 0x22, 0x7d] := by
+  decide +kernel
+open Enc.Model.Json.MapOrder in
+example : sortEntries [([0x62], [0x31]), ([0x61], [0x3c])] = [([0x61], [0x3c]), ([0x62], [0x31])] := by
+  simp [sortEntries, List.mergeSort, List.MergeSort.Internal.splitInTwo, strLE]
+
+/-- non-vacuity: HTML characters, a control byte, U+2028, an invalid byte, a UTF-8 encoded surrogate (invalid: three
+U+FFFD) and a quote, with EscapeHTML on and off -/
+example : unmarshalString (encodeString [0x3c, 0x61, 0x01, 0xe2, 0x80, 0xa8, 0xff, 0xed, 0xa0, 0x80, 0x22] true)
+    = some [0x3c, 0x61, 0x01, 0xe2, 0x80, 0xa8, 0xef, 0xbf, 0xbd, 0xef, 0xbf, 0xbd, 0xef, 0xbf, 0xbd, 0xef, 0xbf, 0xbd, 0x22] := by
+  decide +kernel
+example : Spec.Json.coerceUTF8 [0x3c, 0x61, 0x01, 0xe2, 0x80, 0xa8, 0xff, 0xed, 0xa0, 0x80, 0x22]
+    = [0x3c, 0x61, 0x01, 0xe2, 0x80, 0xa8, 0xef, 0xbf, 0xbd, 0xef, 0xbf, 0xbd, 0xef, 0xbf, 0xbd, 0xef, 0xbf, 0xbd, 0x22] := by
+  decide +kernel
+example : Spec.Json.ValidUTF8 [0x61, 0xc3, 0xa9, 0xe2, 0x80, 0xa8, 0xf0, 0x9f, 0x98, 0x80] := by
+  unfold Spec.Json.ValidUTF8; decide +kernel
 
 end Enc.Props.C14
